@@ -64,7 +64,7 @@ impl Prop for C13 {
             Op::Encode { call: EncCall::RespGetEndpointId { cc: 0, etype: 0, idtype: 0, fairness: false }, dest: s },
         ];
         let k = alphabet.len();
-        let maxlen = if tier == Tier::Thorough { 5 } else { 4 };
+        let maxlen = if tier == Tier::Thorough { 6 } else { 4 };
         let mut idx = 0usize;
         for len in 1..=maxlen {
             let total = k.pow(len as u32);
@@ -84,7 +84,7 @@ impl Prop for C13 {
         }
     }
     fn enumerated_desc(&self, tier: Tier) -> Option<String> {
-        Some(format!("bounded-exhaustive histories: every sequence of length 1..{} over a 13-letter alphabet (Set EID with operations Set, Force, SetDiscoveredFlag, Reset and reserved byte 0x04, each carrying a different EID; a Set with a wrong PEC; a decode-only Set; a Set with a wrong data length; Get EID; the two accessors; another request; a direct Get Endpoint ID response encode)", if tier == Tier::Thorough { 5 } else { 4 }))
+        Some(format!("bounded-exhaustive histories: every sequence of length 1..{} over a 13-letter alphabet (Set EID with operations Set, Force, SetDiscoveredFlag, Reset and reserved byte 0x04, each carrying a different EID; a Set with a wrong PEC; a decode-only Set; a Set with a wrong data length; Get EID; the two accessors; another request; a direct Get Endpoint ID response encode)", if tier == Tier::Thorough { 6 } else { 4 }))
     }
     fn run(&self, case: &Case) -> CaseResult {
         let mut r = CaseResult::default();
